@@ -78,6 +78,9 @@ func siteLocKind(sp *spec.Spec, m *spec.Method, attrDecl *spec.Attr, desc string
 			if strings.Count(p[2], ".")+strings.Count(p[2], "[")+strings.Count(p[2], "{") > 1 {
 				k += ":nested"
 			}
+			if strings.Contains(p[2], "|") {
+				k += ":in-union" // the probed place lies inside the selected alternative of a union
+			}
 			return locName(loc), k
 		}
 	}
@@ -308,7 +311,7 @@ func attrAt(sp *spec.Spec, decl *spec.Attr, path string) *spec.Attr {
 		switch path[i] {
 		case '.':
 			j := i + 1
-			for j < len(path) && path[j] != '.' && path[j] != '[' && path[j] != '{' {
+			for j < len(path) && path[j] != '.' && path[j] != '[' && path[j] != '{' && path[j] != '|' {
 				j++
 			}
 			if rt.Kind != spec.Object {
@@ -323,6 +326,16 @@ func attrAt(sp *spec.Spec, decl *spec.Attr, path string) *spec.Attr {
 			}
 			cur = rt.Elem
 			i += j + 1
+		case '|':
+			j := i + 1
+			for j < len(path) && path[j] != '.' && path[j] != '[' && path[j] != '{' && path[j] != '|' {
+				j++
+			}
+			if rt.Kind != spec.Union {
+				return nil
+			}
+			cur = rt.Attr(path[i+1 : j])
+			i = j
 		case '{':
 			j := strings.IndexByte(path[i:], '}')
 			if j < 0 || rt.Kind != spec.Map {
